@@ -28,7 +28,7 @@ m = {
               "baseline_off_cmd": "cd /repo && /venv/bin/python -m pytest -ra -q -p no:cacheprovider --timeout=900 --continue-on-collection-errors",
               "source_commits": [], "add_only": True},
     "engines": [{"name": "sa", "path": "/verif/sa", "serves_properties": [c["property_id"] for c in checks],
-                 "kind_free_text": "repository-specific static analysis: ast program model, statement CFG with dominators/guards, mypy-as-library types and call resolution, class-hierarchy call graph, constant-table evaluation; per-property rule modules under sa/rules"}],
+                 "kind_free_text": "repository-specific static analysis: ast program model, statement CFG with dominators/guards, mypy-as-library types and call resolution, class-hierarchy call graph, constant-table evaluation, abstract pyparsing model (sa/grammar.py), and a syntax-tree interpreter (sa/tabulate.py) that evaluates functions extracted from the current source over stand-in values — pySigma itself is never imported or run; per-property rule modules under sa/rules"}],
     "checks": checks,
     "not_applicable": na,
     "notes": "Every check decides structural necessary conditions of its property on /repo's current source (see DESIGN.md); none runs pySigma. Exit 0 = all rule instances discharged or listed in known_findings.json; exit 1 + VIOLATION = a rule instance fails that is not listed; exit 2 + ANALYSIS-ERROR = the analysis could not be carried out (anchor vanished, shape not recognised).",
